@@ -101,6 +101,21 @@ CHECKS["C17"] = dict(
          "correspondence only (shape checks for random/time-dependent fields).",
 )
 
+CHECKS["C05"] = dict(
+    text=("Machine-checked theorems (Coq) over a Gallina model of PrefixNormalizer (with the Python set iteration "
+          "order as an arbitrary parameter), Element.promotePrefixes / refitPrefixes / nsdeclarations, the str and "
+          "plain serialisers, ElementWrapper and Typer.genprefix on a prefix-level tree, against the "
+          "Namespaces-in-XML infoset function: normalisation + promotion preserve the infoset for ALL trees and "
+          "ALL hash orders under explicit boolean guards, pretty and plain print the same infoset, refit "
+          "(prefixes=False) keeps well-formedness and, under a guard, the infoset; the four prefixes x pretty "
+          "combinations denote one infoset; capture cases are refuted with witnesses. Each of ~150 generated "
+          "requests per quick run (raw Element values, Element headers, xsi:nil, xsi:type, three binding styles) "
+          "is built under all 16 option settings, parsed with expat and compared pairwise and with the model."),
+    design="DESIGN.md §5 C05",
+    technique="Coq proof over a prefix-level tree model + in-Coq differential correspondence over 16 settings",
+    note="The marshaller that builds the pre-pass tree is C01's model; tokenisation/escaping is C04's.",
+)
+
 PENDING = {}
 
 
